@@ -15,7 +15,7 @@ CHECKS: dict[str, tuple[str, str, str, str]] = {
         " exit status 0 iff compliant on all output paths, the per-result effect table of"
         " ProjectReport.generate, the files_without_* filters and the all-sources construction of the"
         " per-file fields. This is a necessary condition of the behavioural property, decided for all"
-        " paths; it is not a proof that extraction/coverage underneath is right for every tree. Also shares C03's decision table of is_path_ignored (which files are covered at all). The LicenseRef- language equals LicenseRef-[A-Za-z0-9.-]+ (regular-language equality, shared with C06). The precedence table of Project.reuse_info_of (what is attributed to a file) is shared with C04.",
+        " paths; it is not a proof that extraction/coverage underneath is right for every tree. Also shares C03's decision table of is_path_ignored (which files are covered at all). The LicenseRef- language equals LicenseRef-[A-Za-z0-9.-]+ (regular-language equality, shared with C06). The precedence table of Project.reuse_info_of (what is attributed to a file) is shared with C04. Inherits every rule of the layers it is stated over (C02 reading, C03 covered set, C04 attribution, C05 globs, C06 inventory, C12 ignore blocks; DESIGN §8.2b).",
         "Trusted: CPython ast, the tabulator (sa/tab.py). Not decided: lower layers (C02-C06).",
         "DESIGN.md §3 C01",
     ),
@@ -50,7 +50,7 @@ CHECKS: dict[str, tuple[str, str, str, str]] = {
         " version, line splitting, paragraph order - including a lint that nothing sorts, reverses, slices or re-assigns the"
         " table list between its construction and the dump, since both formats let the last match win), and - for every legal dep5 glob over {a / * ? \\} up to length"
         " 5 (quick) / 7 (thorough) and paths of any length - equality of the DEP5 glob language with the language"
-        " of the converted glob under the extracted REUSE.toml matcher. Equality of whole lint reports is not decided. On the exceptional path where the write of REUSE.toml fails nothing is removed.",
+        " of the converted glob under the extracted REUSE.toml matcher. Equality of whole lint reports is not decided. On the exceptional path where the write of REUSE.toml fails nothing is removed. Inherits C05 (the matcher that interprets the converted globs).",
         "Trusted: ast, re._parser, stdlib re applied to the two folded converter constants, DEP5's documented glob"
         " semantics for python-debian, sa/transducer.py, sa/relang.py. Known findings are recognised by equality"
         " with a frozen defect model.",
@@ -83,7 +83,7 @@ CHECKS: dict[str, tuple[str, str, str, str]] = {
         " extend / append) and compared with the specification on every path (joint lazy decision-tree exploration);"
         " likewise FILE.license shadowing, last-match-wins inside one REUSE.toml, the depth-sorted top-down walk that"
         " stops at the first override, the closest clean-up as a complete 4-state x 4-element flag machine, dep5 ="
-        " AGGREGATE with named source, and dep5/REUSE.toml exclusivity. REUSE.toml discovery receives the project's coverage options unchanged (shared with C03).",
+        " AGGREGATE with named source, and dep5/REUSE.toml exclusivity. REUSE.toml discovery receives the project's coverage options unchanged (shared with C03). Inherits C05 (glob matching).",
         "Trusted: ast, sa/tab.py. ReuseInfo's helper predicates are mapped to formulas here and decided in C09.",
         "DESIGN.md §3 C04",
     ),
@@ -118,7 +118,7 @@ CHECKS: dict[str, tuple[str, str, str, str]] = {
         " JSON lists; the plain verdict sentence follows is_compliant; ProjectSubsetReport's verdict, filters and"
         " propagation agree with ProjectReport's on the four shared categories and with what format_lines_subset"
         " prints; lint-file exits 0 iff compliant on every path and rejects outside files before generating."
-        " Textual equality of rendered paths is not decided. The subset report examines subset_files(F) whenever F was given (an empty F is not 'no subset'). Nothing is carried from one examined file to the next (task purity shared with C14). A rendering loop does not range over a re-keyed dictionary that can collapse (identifier, file) pairs.",
+        " Textual equality of rendered paths is not decided. The subset report examines subset_files(F) whenever F was given (an empty F is not 'no subset'). Nothing is carried from one examined file to the next (task purity shared with C14). A rendering loop does not range over a re-keyed dictionary that can collapse (identifier, file) pairs. Inherits C03 (covered set).",
         "Trusted: ast, sa/tab.py.",
         "DESIGN.md §3 C13",
     ),
@@ -129,7 +129,7 @@ CHECKS: dict[str, tuple[str, str, str, str]] = {
         " wrapping and the LicenseRef section; that the checksum is hashlib.sha1 over every chunk of the file opened"
         " in binary mode and is never disabled by the spdx command; that SPDXID derives from name and checksum; the"
         " LicenseConcluded table (NOASSERTION / NONE / AND of parenthesised expressions, simplified) and the creator"
-        " requirement. SHA-1 values and boolean.py's simplify() are library semantics and not decided. The covered-file set (ignore-name languages and the is_path_ignored table) is shared with C03.",
+        " requirement. SHA-1 values and boolean.py's simplify() are library semantics and not decided. The covered-file set (ignore-name languages and the is_path_ignored table) is shared with C03. Inherits C02, C03 and C04 (and C05 through C04).",
         "Trusted: ast, sa/tab.py. The file set is decided by C01/C03.",
         "DESIGN.md §3 C18",
     ),
@@ -163,7 +163,7 @@ CHECKS: dict[str, tuple[str, str, str, str]] = {
         " keyword arguments of template.render ⊆ variables of the default template, with equal tag literals on both"
         " sides; unchanged forwarding of every option along the five-function annotate chain (rename table); the"
         " .license-target and comment-style decision tables; sanity of the folded style tables (29 classes, 261+64"
-        " map entries). That rendering plus commenting round-trips every value is run-time behaviour and not decided. Every jinja2 Environment is constructed without autoescape / finalize / extensions (values are written verbatim). The multi-line writer refuses every text containing the style's terminator and no style overrides the writer methods or their helper predicates.",
+        " map entries). That rendering plus commenting round-trips every value is run-time behaviour and not decided. Every jinja2 Environment is constructed without autoescape / finalize / extensions (values are written verbatim). The multi-line writer refuses every text containing the style's terminator and no style overrides the writer methods or their helper predicates. Inherits C02 (tag reading) and C20 (notice building).",
         "Trusted: ast, sa/tab.py, sa/fold.py, Jinja2's parser (no rendering).",
         "DESIGN.md §3 C07",
     ),
@@ -184,7 +184,7 @@ CHECKS: dict[str, tuple[str, str, str, str]] = {
         " header raises instead of being dropped, that ReuseInfo.union covers every set field, copy preserves"
         " unspecified fields, the helper predicates equal their formulas, every .copy() call names only dataclass"
         " fields, --skip-existing has no effect, and the post-render check (shared with C07). Monotonicity over"
-        " arbitrary histories of header shapes is not decided. Template environments write re-rendered information verbatim (shared with C07).",
+        " arbitrary histories of header shapes is not decided. Template environments write re-rendered information verbatim (shared with C07). Inherits C07 and its layers.",
         "Trusted: ast, sa/tab.py.",
         "DESIGN.md §3 C09",
     ),
@@ -220,7 +220,7 @@ CHECKS: dict[str, tuple[str, str, str, str]] = {
         " the three template arguments are sorted (so identical arguments give identical headers under any hash seed);"
         " that for none of the 29 folded comment styles the multi-line opener starts with the single-line marker while"
         " single-line detection runs first (the tool must find the header it wrote); that the comment writer and the"
-        " block finder agree; and the no-separator cell of place_header. Byte identity for all bodies is not decided. The year range annotate writes is already in the merger's canonical form (get_year table shared with C20). place_header receives bool(header) as the existing-header flag (shared with C08).",
+        " block finder agree; and the no-separator cell of place_header. Byte identity for all bodies is not decided. The year range annotate writes is already in the merger's canonical form (get_year table shared with C20). place_header receives bool(header) as the existing-header flag (shared with C08). Inherits C07 and C08 and their layers.",
         "Trusted: ast, mypy types, sa/taint.py, sa/fold.py, sa/tab.py, canonisers of table T3.",
         "DESIGN.md §3 C10",
     ),
